@@ -2639,6 +2639,45 @@ impl Cpu {
     }
 }
 
+#[cfg(dmd_core_verif)]
+impl Operand {
+    /// (data type, expanded type) as small integers: 0 None, 1 Byte,
+    /// 2 Half, 3 Word, 4 SByte, 5 UHalf, 6 UWord; -1 for no expanded type.
+    pub fn verif_types(&self) -> (i8, i8) {
+        fn code(d: Data) -> i8 {
+            match d {
+                Data::None => 0,
+                Data::Byte => 1,
+                Data::Half => 2,
+                Data::Word => 3,
+                Data::SByte => 4,
+                Data::UHalf => 5,
+                Data::UWord => 6,
+            }
+        }
+        (
+            code(self.data_type),
+            match self.expanded_type {
+                Some(d) => code(d),
+                None => -1,
+            },
+        )
+    }
+}
+
+#[cfg(dmd_core_verif)]
+impl Cpu {
+    /// Decode the instruction at the program counter without executing it.
+    pub fn verif_decode(&mut self, bus: &mut Bus) -> Result<(), CpuError> {
+        self.decode_instruction(bus)
+    }
+
+    /// Read-only view of the instruction register.
+    pub fn verif_ir(&self) -> &Instruction {
+        &self.ir
+    }
+}
+
 #[cfg(test)]
 mod tests {
     use super::*;
